@@ -1,0 +1,23 @@
+//go:build verif
+
+package wallet
+
+import "github.com/elnosh/gonuts/wallet/storage"
+
+// VerifLoadWrap, when set, wraps the storage of every wallet loaded afterwards.
+var VerifLoadWrap func(storage.WalletDB) storage.WalletDB
+
+func verifWrapLoad(db storage.WalletDB) storage.WalletDB {
+	if VerifLoadWrap != nil {
+		return VerifLoadWrap(db)
+	}
+	return db
+}
+
+// VerifWrapDB replaces the storage held by a loaded wallet.
+func (w *Wallet) VerifWrapDB(wrap func(storage.WalletDB) storage.WalletDB) {
+	w.db = wrap(w.db)
+}
+
+// VerifDB returns the storage currently held by the wallet.
+func (w *Wallet) VerifDB() storage.WalletDB { return w.db }
